@@ -6,14 +6,20 @@ Tie: X — getConnKey (hook, read-only) against the model on the address matrix;
 well-behaved clients and fuzz peers (garbage, truncated, oversize, unsolicited ACK/RST/responses, connect-and-stall, DTLS
 ClientHello-then-silence), discovery with several responders, stray responses and refused duplicate-token calls (the
 observed counts are also compared with the registration model `dtrace`).  Real sockets, real time: a rig problem is never a violation.
+Connection histories (`streams`): a real tcp / dtls server behind an in-memory listener that reports any (remote, local) address
+pair - two open connections with equal remote and different local addresses included -, judged by Spec/StreamServer and compared
+event by event with Model/StreamServer (registry keyed by the remote address only; Props/C10Streams).  Housekeeping histories
+(`hk`): a datagram server whose housekeeping pass the harness runs, meeting the peer's next datagram and Stop on one closed connection.
 """
 import itertools
+import json
+import os
 import random
 
 from . import common
 
-MODULES = ["CoapVerif.Props.C10", "CoapVerif.Props.C10Wiring"]
-GENERATED = ["OptionWiring.lean"]
+MODULES = ["CoapVerif.Props.C10", "CoapVerif.Props.C10Wiring", "CoapVerif.Props.C10Streams"]
+GENERATED = ["OptionWiring.lean", "ConnRegistry.lean"]
 KINDS = [("concrete", "5"), ("concrete", "6"), ("concrete6", "5"), ("multicast", "5"), ("multicast", "9"), ("multicast6", "5"),
          ("unspecified", "0"), ("unspecified6", "0"), ("empty", "0")]
 
@@ -108,10 +114,126 @@ def explore(ctx, art):
         ctx.sample({"case": l, "observed": o})
 
 
+def stream_lines(ctx, rng):
+    """connection histories for the stream / DTLS servers: 2 remote addresses x 3 local addresses, so that two simultaneously
+    open connections with EQUAL remote and different local addresses (one source ip:port reaching a wildcard listener over
+    two of its addresses) occur in most histories; housekeeping passes and Stop happen while they are open."""
+    L = ["streams tcp o1.1.1 q1 o2.1.2 q1 q2 q1 h x2 q1 h s",
+         "streams dtls o1.1.1 q1 o2.1.2 q1 q2 q1 h x1 q2 h s",
+         "streams tcp o1.1.1 o2.1.2 o3.1.3 h q1 q2 q3 s",
+         "streams tcp o1.1.1 o2.2.1 o3.1.2 q1 q2 q3 h x3 q1 q2 x1 h o4.1.3 q4 h s",
+         "streams dtls o1.1.1 o2.2.1 q1 h x2 h q1 o3.2.1 q3 h s"]
+    for k in range(24 if ctx.tier == "thorough" else 8):
+        t = "tcp" if k % 2 == 0 else "dtls"
+        evs, opn, nid = [], {}, 0      # opn: id -> [remote, local]
+        for _ in range(rng.randrange(6, 16)):
+            c = rng.random()
+            free = [(r, l) for r in (1, 2) for l in (1, 2, 3) if not any(v[0] == r and v[1] == l for v in opn.values())]
+            if (c < 0.35 or not opn) and free and len(opn) < 5:
+                r, l = rng.choice(free)
+                nid += 1
+                opn[nid] = [r, l]
+                evs.append("o%d.%d.%d" % (nid, r, l))
+            elif c < 0.65 and opn:
+                evs.append("q%d" % rng.choice(sorted(opn)))
+            elif c < 0.82 and opn:
+                i = rng.choice(sorted(opn))
+                del opn[i]
+                evs.append("x%d" % i)
+            else:
+                evs.append("h")
+        for i in sorted(opn):
+            evs.append("q%d" % i)
+        evs += ["h", "s"]
+        L.append("streams %s %s" % (t, " ".join(evs)))
+    return L
+
+
+def hk_lines(ctx, rng):
+    """datagram server with the housekeeping pass in the harness' hand: the three ways a closed peer connection is cleaned up
+    (pass, the peer's next datagram, Stop) meet on one connection"""
+    L = ["hk w1 w2 m1 m2 p:wo w1 w2",
+         "hk w1 w2 m1 m2 p:s",
+         "hk w1 w2 c1 c2 p:mo w1 w2 p",
+         "hk w1 w2 w3 c1 m2 c3 p:wo w1 w2 w3 p:w2 s",
+         "hk w1 m1 p w1 c1 w1 p s",
+         "hk w1 w2 w3 m1 c2 m3 p:w3 p:w2 w1 w2 w3 p s"]
+    for _ in range(16 if ctx.tier == "thorough" else 5):
+        evs = ["w1", "w2", "w3"]
+        for _ in range(rng.randrange(4, 10)):
+            c = rng.random()
+            i = rng.randrange(1, 4)
+            if c < 0.3:
+                evs.append("w%d" % i)
+            elif c < 0.5:
+                evs.append("m%d" % i)
+            elif c < 0.65:
+                evs.append("c%d" % i)
+            elif c < 0.75:
+                evs.append("p")
+            else:
+                evs.append("p:" + rng.choice("wwmc") + rng.choice([str(i), "o"]))
+        evs.append(rng.choice(["p:s", "s", "p"]))
+        L.append("hk " + " ".join(evs))
+    return L
+
+
+def connection_histories(ctx, art):
+    """`streams` and `hk` lines run in their own harness process; when that process dies (a panic in a goroutine of the library
+    cannot be recovered by the harness) the lines are run one by one, and a line whose own process dies is a concrete failing
+    input."""
+    rng = random.Random(ctx.seed + 1010)
+    lines = []
+    cdir = os.path.join(common.VERIF, "corpus", "C10")
+    for f in sorted(os.listdir(cdir)) if os.path.isdir(cdir) else []:
+        if f.endswith(".json"):
+            lines += [l for l in json.load(open(os.path.join(cdir, f))).get("input", []) if l.split()[0] in ("streams", "hk")]
+    lines += [l for l in stream_lines(ctx, rng) + hk_lines(ctx, rng) if l not in lines]
+    nb = len(ctx.broken)
+    out = common.run_test_harness(ctx, art["test"], "TestC10", lines, timeout=600, tag="conn")
+    if out is None or len(out) != len(lines):
+        out = []
+        for l in lines:
+            o = common.run_test_harness(ctx, art["test"], "TestC10", [l], timeout=120, tag="conn1")
+            if o and len(o) == 1:
+                out.append(o[0])
+                continue
+            tail = [x for x in (getattr(ctx, "harness_log", "") or "").splitlines() if x.startswith(("panic:", "fatal error:"))][:1]
+            out.append("crash " + (tail[0] if tail else "the harness process died"))
+        del ctx.broken[nb:]          # replaced by the concrete lines below
+    if not art.get("driver"):
+        return
+    rc, model, _ = common.pipe_lines([art["driver"], "model"], lines)
+    rc2, judge, _ = common.pipe_lines([art["driver"], "judge"], [l + " | " + o for l, o in zip(lines, out)])
+    if rc or rc2 or len(model) != len(lines) or len(judge) != len(lines):
+        ctx.broken.append(("model", "C10 driver run failed (connection histories)", ""))
+        return
+    for l, o, m, j in zip(lines, out, model, judge):
+        ctx.cov["evaluations"] += 1
+        kind = l.split()[0] + ("-" + l.split()[1] if l.startswith("streams") else "")
+        ctx.count(kind)
+        if o.startswith("rig-error"):
+            ctx.notes.append("rig problem (not a violation): %s -> %s" % (l, o))
+            continue
+        if o.startswith(("crash ", "panic")):
+            ctx.violations.append(common.Violation("no-crash", "C10:%s:crash" % kind, "%s: the server's process died: %s" % (l, o),
+                                                   {"input": [l], "observed": o}))
+            continue
+        if not j.startswith("ok"):
+            clause = "no-crash" if "crashed" in j else "serves-and-isolates"
+            ctx.violations.append(common.Violation(clause, "C10:%s" % kind, "%s: observed `%s`: %s" % (l, o, j),
+                                                   {"input": [l], "observed": o, "judge": j}))
+        if m != "n/a" and m != o:
+            ctx.broken.append(("correspondence", "C10 stream-server model vs implementation", "%s: impl %s model %s" % (l, o, m)))
+    ctx.cov["traces_validated_against_impl"] = ctx.cov.get("traces_validated_against_impl", 0) + len(lines)
+    ctx.cov["distinct_nontrivial"] = ctx.cov.get("distinct_nontrivial", 0) + len(set(lines))
+
+
 def run(ctx):
     art = common.standard_prepare(ctx, MODULES, hx=False, test=True, generated=GENERATED)
     if art.get("test"):
         explore(ctx, art)
+        connection_histories(ctx, art)
     # peer isolation under the servers' own housekeeping: three peers on one real tcp / dtls server (one silent, one
     # talkative), monitors from options.WithKeepAlive / WithInactivityMonitor / the default configuration; the observed
     # peer's connection must behave as if it were alone (harness/c18 server levels, judged by C18's reference monitor)
@@ -134,6 +256,11 @@ def replay(ctx, rep):
         from . import c18
         return c18.replay(ctx, rep)
     impl = common.run_test_harness(ctx, art["test"], "TestC10", lines, tag="replay")
+    if impl is None or len(impl) != len(lines):
+        tail = [x for x in (getattr(ctx, "harness_log", "") or "").splitlines() if x.startswith(("panic:", "fatal error:"))][:1]
+        print("%s: the harness process died: %s" % (lines, tail[0] if tail else ""))
+        print("VIOLATION property=C10 replay=(replayed) still reproduces")
+        return 1
     rc, judge, _ = common.pipe_lines([art["driver"], "judge"], [l + " | " + o for l, o in zip(lines, impl)])
     bad = 0
     for l, o, j in zip(lines, impl, judge):
